@@ -29,7 +29,14 @@ for p in mutants/revert-*.patch mutants/hand-*.patch; do
   esac
   [ -n "$id" ] && echo "$p $id" >> $JOBS
 done
-xargs -P 3 -L 1 sh -c 'tools/mutant_wt.sh $0 $1 quick | grep MUTANT' < $JOBS | sort > $OUT
+# MUTANTS_FILTER=<regex> restricts the jobs and appends to the table instead of rewriting it
+if [ -n "$MUTANTS_FILTER" ]; then
+  grep -E "$MUTANTS_FILTER" $JOBS > $JOBS.f; mv $JOBS.f $JOBS
+  grep -v '^detected:' $OUT > $OUT.keep 2>/dev/null
+  xargs -P ${MUTANTS_PAR:-3} -L 1 sh -c 'tools/mutant_wt.sh $0 $1 quick | grep MUTANT' < $JOBS >> $OUT.keep; sort -u $OUT.keep > $OUT; rm -f $OUT.keep
+else
+  xargs -P ${MUTANTS_PAR:-3} -L 1 sh -c 'tools/mutant_wt.sh $0 $1 quick | grep MUTANT' < $JOBS | sort > $OUT
+fi
 echo "detected: $(grep -c 'exit 1' $OUT)  missed: $(grep -c 'exit 0' $OUT)  n/a: $(grep -c 'exit 2' $OUT)" >> $OUT
 rm -f $JOBS
 tail -1 $OUT
